@@ -6,6 +6,7 @@ package main
 // helpers follow static callees (and closures called where they are made) only; the C16 pool rules use the variants below.
 
 import (
+	"go/token"
 	"go/types"
 	"strings"
 
@@ -139,8 +140,33 @@ func c16syncCallees(i ssa.Instruction) []*ssa.Function {
 // c16funcsOf: funcsOf, and for a function-typed parameter the functions its arguments denote at the static call sites.
 func c16funcsOf(v ssa.Value, depth int) []*ssa.Function {
 	out := funcsOf(v)
+	if depth > 2 {
+		return out
+	}
+	// a function kept in a field of a repository struct (an injected getter / dialer / hook): whatever the repository
+	// stores into that field
+	var ft types.Type
+	fidx := -1
+	switch x := v.(type) {
+	case *ssa.Field:
+		ft, fidx = x.X.Type(), x.Field
+	case *ssa.UnOp:
+		if fa, isFA := x.X.(*ssa.FieldAddr); isFA && x.Op == token.MUL {
+			ft, fidx = deref(fa.X.Type()), fa.Field
+		}
+	}
+	if fidx >= 0 && c16isFuncT(v.Type()) {
+		for _, st := range c16storesToField(ft, fidx) {
+			for _, g := range c16funcsOf(st.Val, depth+1) {
+				if !c16inFns(out, g) {
+					out = append(out, g)
+				}
+			}
+		}
+		return out
+	}
 	p, ok := v.(*ssa.Parameter)
-	if !ok || depth > 2 {
+	if !ok {
 		return out
 	}
 	k := c16paramIndex(p)
